@@ -142,7 +142,11 @@ def _work(spec):
             st, interp = pipeline.run(f, 100000)
             if st == "done":
                 vm_budget = 16 * max(8, f.parser.max_stmt_tokens) * interp.steps + 256
-        case = {"mode": "run", "main": main, "files": files, "opts": [("budget", vm_budget), ("program", 1)]}
+        opts = [("budget", vm_budget), ("program", 1)]
+        if len(prepared) % 3 == 0:
+            # the same machine object used again after reset(): depth bound and iteration counts must hold for the rerun too
+            opts = [("budget", vm_budget + 60), ("program", 1), ("reset_at", "7 53")]
+        case = {"mode": "run", "main": main, "files": files, "opts": opts}
         prepared.append((files, main, desc, f, st, interp, case))
     outs, _ = common.run_batch([p[-1] for p in prepared])
     for (files, main, desc, f, st, interp, case), r_ in zip(prepared, outs):
